@@ -4,7 +4,7 @@
    exception classes __aexit__ reacts to is re-extracted from the running code
    (gen/Gen_curio.v).  Partial: timers with EQUAL expiry instants (asyncio's heap order) and
    the event loop itself are not modelled. *)
-From AV Require Import Base Gen_curio Timeout TimeoutProofs.
+From AV Require Import Base Gen_curio Timeout TimeoutProofs TimeoutCode TimeoutCodeProofs.
 Local Open Scope Z_scope.
 
 Theorem C11_facts :
@@ -108,6 +108,23 @@ Example C11_ex_stale_record :
   = Exc ECancelled.
 Proof. vm_compute. reflexivity. Qed.
 
+(* TimeoutAfter.__aexit__ is translated from the Python source on every run into a list of decisions
+   (gen/Gen_curio.v: aexit_code); nothing was left untranslated, and for EVERY exception in flight (or none), kind
+   of block, recorded timeout and "uncaught" flag, running the generated decisions gives what the model's aexit
+   gives: which exception leaves the block (or that it is swallowed) and whether the block reports expiry *)
+Theorem C11_aexit_code_known : dknown 6 aexit_code = true /\ hd DSUnknown aexit_code = DUnset.
+Proof. exact aexit_code_known. Qed.
+
+Theorem C11_aexit_from_source : forall k dl r s,
+  let '(tod, uncaught, s') := unset_deadline s in
+  exists r' e, aexit k dl r s = (r', add_log s' r' e) /\
+    aexit_generated {| d_kind := k; d_deadline := dl; d_inflight := r; d_timed_out := tod; d_uncaught := uncaught |} = DDone r' e.
+Proof.
+  intros k dl r s. pose proof (aexit_is_decide k dl r s) as H. destruct (unset_deadline s) as [[tod unc] s'].
+  pose proof (generated_aexit_is_model k dl r tod unc) as G. destruct (decide k dl r tod unc) as [r' e].
+  exists r', e. split; [exact H|exact G].
+Qed.
+
 Print Assumptions C11_facts.
 Print Assumptions C11_early_unaffected.
 Print Assumptions C11_fires_not_earlier.
@@ -120,3 +137,5 @@ Print Assumptions C11_outer_deadline_first.
 Print Assumptions C11_inner_deadline_first.
 Print Assumptions C11_body_first.
 Print Assumptions C11_reporting_level.
+Print Assumptions C11_aexit_code_known.
+Print Assumptions C11_aexit_from_source.
